@@ -145,7 +145,7 @@ StopsAtFirstSuccess == \A i \in 1..Len(outs) : ~outs[i].fail => i = n
 NoAttemptAfterCancel == [][(cancelled /\ last'.a # "init") => n' = n]_vars    \* ("init": a trace spec starts the next recorded scenario)
 
 (* waits at least the back-off between attempts *)
-BackoffRespected == [][(last'.a = "att" /\ n >= 1) => WaitedEnough(n, last'.w)]_vars
+BackoffRespected == [][(last'.a = "att" /\ n' = n + 1 /\ n >= 1) => WaitedEnough(n, last'.w)]_vars
 
 (* streamed request bodies are never re-sent *)
 StreamSentOnce == sc.stream => n <= 1
